@@ -85,6 +85,10 @@ def opclass(act, args, n=None):
         return act + ("/ml2" if args[2] == 2 else "")
     if act == "Concat":
         return f"Concat/{args[0]}"
+    if act == "ConcatSlices":
+        a, b, c, d = args
+        how = "empty" if a == b or c == d else "inorder" if b == c else "swapped" if d == a else "overlap" if max(a, c) < min(b, d) else "apart"
+        return f"ConcatSlices/{how}"
     if act == "ToType":
         return "ToType/" + ("array" if args[0] else "aln")
     if act == "DeepCopy":
@@ -304,6 +308,7 @@ class Stats:
 def walk(g, make_lab, first_labels, policy, seed, stats):
     full_depth, sample_k, p_ro = policy["full_depth"], policy["sample_k"], policy["p_ro"]
     max_depth = policy["max_depth"]  # histories of at most this many operations (and only while the graph has the state expanded)
+    cs_cap = policy.get("cs_cap")  # at most this many ConcatSlices labels per node (seeded sample); None = all
 
     def visit(sid, objs, path):
         # objs: {track: real object}; all stand at spec state sid
@@ -317,6 +322,11 @@ def walk(g, make_lab, first_labels, policy, seed, stats):
             k = sample_k if depth == full_depth else 1
             if len(labels) > k:
                 labels = _rng(seed, [make_lab] + path).sample(sorted(labels), k)
+        if cs_cap is not None:
+            cs = sorted(l for l in labels if l.startswith('["ConcatSlices"'))
+            if len(cs) > cs_cap:
+                drop = set(cs) - set(_rng(seed, [make_lab, "cs"] + path).sample(cs, cs_cap))
+                labels = [l for l in labels if l not in drop]
         for lab in labels:
             groups = {}
             act = lab[2 : lab.index('"', 2)]
